@@ -76,6 +76,11 @@ func prewriteMutation(db *NoKV.DB, reader *Reader, req *pb.PrewriteRequest, mut 
 		Kind:        mut.Op,
 		MinCommitTs: req.MinCommitTs,
 	}
+	if lock != nil && lock.MinCommitTs > newLock.MinCommitTs {
+		// A repeated prewrite must not take back a min-commit timestamp that
+		// CheckTxnStatus already pushed on behalf of a reader.
+		newLock.MinCommitTs = lock.MinCommitTs
+	}
 	encoded := EncodeLock(newLock)
 	if err := db.SetVersionedEntry(kv.CFLock, key, lockColumnTs, encoded, 0); err != nil {
 		return keyErrorRetryable(err)
